@@ -29,12 +29,26 @@ CLAIM = dict(
          'not binding => discarded energy <= e^2), C03_svd_error_sq (error^2 = sum of tails <= (d-1) e^2), C03_svd_error '
          '(error <= e sqrt(d-1), no hypothesis on the magnitude of the data), C03_svd_error_contract (same, for every routine '
          'meeting the contract on all non-empty matrices, cap >= number of entries), C03_svd_exact / C03_svd_exact_e0 (zero '
-         'discarded energy, e.g. e=0 without binding cap => every entry reproduced exactly). (4) C03_skeleton_variants: the '
+         'discarded energy, e.g. e=0 without binding cap => every entry reproduced exactly). (3b) exact ranks: '
+         'C03_rank_select_exact (spectrum with rho entries above the budget followed by zeros, cap>=rho: exactly rho is chosen), '
+         'C03_svd_exact_ranks (a run whose factorised matrices have exact-rank spectra - oracle clause s_i>0 <-> i<rho_k - with '
+         'e below the positive singular values and cap>=rho_k returns exactly the ranks rho_k, discards zero energy, cap never '
+         'binds; with C03_svd_exact: exact reproduction), C03_first_unfolding (the first factorised matrix IS the first '
+         'unfolding of the input, so the first bond is full), C03_link_step / C03_svd_exact_ranks_unfoldings_partial (every '
+         'bond: the k-th unfolding of the INPUT has a contract-meeting SVD U\' diag(s_k) V_k with the recorded s_k, V_k, because '
+         'the factorised matrix is P^T X_k with P the orthonormal prefix and nothing was lost before; PARTIAL only in that the '
+         'independence of the number of positive singular values from the chosen SVD - uniqueness of singular values - is not '
+         'proved). (3c) rel=True: C03_rel_tail / C03_rel_minimal (same as rank_select_tail/_minimal with e replaced by e*s_0, '
+         's_0>0), C03_rank_select_nocut (any carrier: if no comparison of the cumulative sums succeeds - the NaN case s_0=0 of '
+         'the code - no rank is cut: q=max(1,min(r,len))). (4) C03_skeleton_variants: the '
          'three give_to give factors m x q, q x n with the same q and the same product U_q diag(s_q) V_q (give_to="m" under '
          'sqrt(x)^2=x); rel=True selects q from s/s_0 (by definition of skel_rank). (5) C03_interleave_get, '
          'C03_full_matrix_get (both orders), C03_interleave_inv, every q>=1: svd_matrix stores Y[i,j] at t_k=bit_k(i)+2bit_k(j); '
          'full_matrix(order="F") reads exactly that position back, so its entrywise error is the TT-SVD error re-indexed and '
-         'an exact decomposition returns Y; C03_svd_matrix_error (reals): Frobenius error of full_matrix(svd_matrix(A,e)) '
+         'an exact decomposition returns Y; C03_svd_matrix_rej_empty/_1x1/_shape (0 rows -> OverflowError class, 1x1 -> '
+         'IndexError, anything not 2^q x 2^q -> ValueError), C03_svd_matrix_wf (accepted => 2^q x 2^q, q>=1, q cores of mode 4, '
+         'boundary ranks 1, ranks within cap), C03_full_matrix_rej_empty/_size/_boundary, C03_full_matrix_wf; '
+         'C03_svd_matrix_error (reals): Frobenius error of full_matrix(svd_matrix(A,e)) '
          '<= e sqrt(q-1) (the interleaving is a bijection of index sets: sums over entries = sums over positions). '
          'NOT PROVED, checked numerically by the search only (need Eckart-Young / singular value interlacing): product of the '
          'factors is a BEST rank-q approximation; each TT-rank <= smallest rank whose tail energy in the unfolding of the INPUT '
